@@ -157,11 +157,11 @@ class Sequence(Model):
 
     @cached_property
     def defines_single(self) -> list[str]:
-        return list(set().union(*(s.defines_single for s in self.sequence)))
+        return sorted(set().union(*(s.defines_single for s in self.sequence)))
 
     @cached_property
     def defines_list(self) -> list[str]:
-        return list(set().union(*(s.defines_list for s in self.sequence)))
+        return sorted(set().union(*(s.defines_list for s in self.sequence)))
 
     def missing_rules(self, rulenames: set[str]) -> set[str]:
         return set().union(*(s.missing_rules(rulenames) for s in self.sequence))
